@@ -31,6 +31,21 @@ def remove_synced_ops(ops_to_sync: list[Operation], sync_op: snax.ClusterSyncOp)
     return [op for op in ops_to_sync if not is_in_block(op, block)]
 
 
+def get_common_for_op(op1: Operation, op2: Operation) -> scf.ForOp | None:
+    """Get the innermost for loop that contains both operations."""
+    parents_op1: list[Operation] = []
+    parent = op1.parent_op()
+    while parent is not None:
+        parents_op1.append(parent)
+        parent = parent.parent_op()
+    parent = op2.parent_op()
+    while parent is not None:
+        if isinstance(parent, scf.ForOp) and parent in parents_op1:
+            return parent
+        parent = parent.parent_op()
+    return None
+
+
 class InsertSyncBarrier(ModulePass):
     """This pass inserts  snax synchronisation barriers in a program.
     Synchronisation barriers are required when data is shared between
@@ -70,17 +85,15 @@ class InsertSyncBarrier(ModulePass):
 
                     if dispatch_to_dm(op_in_module, ctx) and not dispatch_to_dm(op_use.operation, ctx):
                         ops_to_sync.append(op_use.operation)
-                        if op_in_module.parent_op() == op_use.operation.parent_op() and isinstance(
-                            for_op := op_in_module.parent_op(), scf.ForOp
-                        ):
+                        # the two ops meet again in the next iteration of every loop they share
+                        if (for_op := get_common_for_op(op_in_module, op_use.operation)) is not None:
                             assert isinstance(for_op.body.block.last_op, scf.YieldOp)
                             ops_to_sync.append(for_op.body.block.last_op)
 
                     if dispatch_to_compute(op_in_module, ctx) and not dispatch_to_compute(op_use.operation, ctx):
                         ops_to_sync.append(op_use.operation)
-                        if op_in_module.parent_op() == op_use.operation.parent_op() and isinstance(
-                            for_op := op_in_module.parent_op(), scf.ForOp
-                        ):
+                        # the two ops meet again in the next iteration of every loop they share
+                        if (for_op := get_common_for_op(op_in_module, op_use.operation)) is not None:
                             assert isinstance(for_op.body.block.last_op, scf.YieldOp)
                             ops_to_sync.append(for_op.body.block.last_op)
 
